@@ -778,6 +778,26 @@ func (in *Interp) Eval(n *gen.Node) (any, error) {
 		return nil, nil
 	case gen.Paren:
 		return in.Eval(n.X)
+	case gen.Assign:
+		// v1: an argument written name = value is an assignment that is executed when the argument is evaluated; its
+		// value is the value assigned
+		if in.V2 || n.Op != "=" || len(n.Args) != 1 || len(n.Rhs) != 1 || n.Args[0].Kind != gen.Ident {
+			return nil, ErrUnsupported
+		}
+		rv, err := in.Eval(n.Rhs[0])
+		if err != nil {
+			return nil, err
+		}
+		if IsVoid(rv) {
+			return nil, ErrUnsupported
+		}
+		if _, multi := rv.(Multi); multi {
+			return nil, ErrUnsupported
+		}
+		if err := in.store(n.Args[0], rv); err != nil {
+			return nil, err
+		}
+		return rv, nil
 	case gen.List:
 		out := make([]any, 0, len(n.Args))
 		for _, e := range n.Args {
@@ -826,12 +846,6 @@ func (in *Interp) Eval(n *gen.Node) (any, error) {
 		return in.slice(n)
 	case gen.Call:
 		return in.call(n)
-	case gen.Assign:
-		// named argument evaluated as an expression: behaves as an assignment (v1)
-		if err := in.assign(n); err != nil {
-			return nil, err
-		}
-		return Void, nil
 	}
 	return nil, ErrUnsupported
 }
